@@ -342,3 +342,134 @@ impl SubCheck for GivenUpByMiddleware {
 		});
 	}
 }
+
+// ---------------------------------------------------------------------------------------------
+// handlers on several threads let go of their sinks at the same moment
+// ---------------------------------------------------------------------------------------------
+
+#[derive(Clone, Debug, Serialize, Deserialize)]
+pub struct BurstCase {
+	pub workers: u8,
+	pub subs: u8,
+	pub rounds: u8,
+	/// while the sinks go, other callers keep subscribing and unsubscribing on the same method
+	pub churn: bool,
+}
+
+pub struct DroppedTogether;
+
+impl SubCheck for DroppedTogether {
+	type Case = BurstCase;
+	fn name(&self) -> &'static str {
+		"sinks-dropped-on-several-threads"
+	}
+	fn cases(&self, tier: Tier) -> u32 {
+		tier.pick(48, 1_500)
+	}
+	fn shards(&self, _tier: Tier) -> u32 {
+		2
+	}
+	fn strategy(&self, _tier: Tier) -> BoxedStrategy<BurstCase> {
+		(2u8..7, 16u8..96, 2u8..8, any::<bool>()).prop_map(|(workers, subs, rounds, churn)| BurstCase { workers, subs, rounds, churn }).boxed()
+	}
+	fn run(&self, case: &BurstCase, obs: &mut Obs) {
+		use jsonrpsee_core::server::RpcModule;
+		use std::sync::atomic::{AtomicUsize, Ordering};
+		use std::time::Duration;
+		obs.nontrivial();
+		obs.class(if case.churn { "burst:with-churn" } else { "burst:plain" });
+		let rt = tokio::runtime::Builder::new_multi_thread().worker_threads(case.workers.clamp(2, 6) as usize).enable_time().build().expect("runtime");
+		let r: Result<Vec<String>, String> = rt.block_on(async {
+			let released = Arc::new(AtomicUsize::new(0));
+			let (go_tx, go_rx) = tokio::sync::watch::channel(0u32);
+			let mut module = RpcModule::new((released.clone(), go_rx));
+			module
+				.register_subscription("sub", "item", "unsub", |p, pending, ctx, _| async move {
+					let round: u32 = p.one().unwrap_or(0);
+					let (released, mut go) = (ctx.0.clone(), ctx.1.clone());
+					let Ok(sink) = pending.accept().await else {
+						released.fetch_add(1, Ordering::SeqCst);
+						return;
+					};
+					// hold the sink until the round is told to let go; all handlers of the round wake together
+					while *go.borrow() < round {
+						if go.changed().await.is_err() {
+							break;
+						}
+					}
+					drop(sink);
+					released.fetch_add(1, Ordering::SeqCst);
+				})
+				.map_err(|e| e.to_string())?;
+			let module = Arc::new(module);
+			let mut left_behind = vec![];
+			for round in 1..=case.rounds.max(1) as u32 {
+				let n = case.subs.max(1) as usize;
+				let before = released.load(Ordering::SeqCst);
+				let mut ids = vec![];
+				let mut rxs = vec![];
+				for k in 0..n {
+					let (resp, rx) = module.raw_json_request(&format!(r#"{{"jsonrpc":"2.0","id":{k},"method":"sub","params":[{round}]}}"#), 4).await.map_err(|e| e.to_string())?;
+					let v: Value = serde_json::from_str(resp.get()).map_err(|e| e.to_string())?;
+					if v.get("result").is_none() {
+						return Err(format!("subscribe refused: {v}"));
+					}
+					ids.push(v["result"].clone());
+					rxs.push(rx);
+				}
+				// churn on the same method while the sinks go
+				let stop_churn = Arc::new(std::sync::atomic::AtomicBool::new(false));
+				let mut churners = vec![];
+				if case.churn {
+					for c in 0..2 {
+						let (m, stop) = (module.clone(), stop_churn.clone());
+						churners.push(tokio::spawn(async move {
+							let mut i = 0u64;
+							while !stop.load(Ordering::SeqCst) && i < 20_000 {
+								i += 1;
+								// (round 0: the handler lets go at once)
+								if let Ok((resp, _rx)) = m.raw_json_request(&format!(r#"{{"jsonrpc":"2.0","id":"c{c}-{i}","method":"sub","params":[0]}}"#), 1).await {
+									if let Ok(v) = serde_json::from_str::<Value>(resp.get()) {
+										let _ = m.raw_json_request(&format!(r#"{{"jsonrpc":"2.0","id":"u","method":"unsub","params":[{}]}}"#, v["result"]), 1).await;
+									}
+								}
+							}
+						}));
+					}
+				}
+				go_tx.send(round).map_err(|e| e.to_string())?;
+				// all handlers of the round (and whatever the churn started) have let go
+				let t0 = std::time::Instant::now();
+				while released.load(Ordering::SeqCst) < before + n {
+					if t0.elapsed() > Duration::from_secs(20) {
+						return Err("handlers did not return within 20 s".into());
+					}
+					tokio::time::sleep(Duration::from_millis(1)).await;
+				}
+				stop_churn.store(true, Ordering::SeqCst);
+				for c in churners {
+					let _ = c.await;
+				}
+				tokio::time::sleep(Duration::from_millis(2)).await;
+				// none of the subscriptions of the round exists any more: unsubscribing any of them answers false
+				for id in &ids {
+					let (resp, _rx) = module.raw_json_request(&format!(r#"{{"jsonrpc":"2.0","id":"u","method":"unsub","params":[{id}]}}"#), 1).await.map_err(|e| e.to_string())?;
+					let v: Value = serde_json::from_str(resp.get()).map_err(|e| e.to_string())?;
+					if v["result"] != json!(false) {
+						left_behind.push(format!("round {round}: unsubscribe({id}) after its handler returned => {v}"));
+					}
+				}
+				drop(rxs);
+				if !left_behind.is_empty() {
+					break;
+				}
+			}
+			Ok(left_behind)
+		});
+		rt.shutdown_background();
+		match r {
+			Ok(left) => drop(obs.check(left.is_empty(), "c06/unsubscribe-true-for-inactive-subscription", || format!("{} stale entries, e.g. {:?}; case={case:?}", left.len(), left.iter().take(3).collect::<Vec<_>>()))),
+			Err(e) => obs.class(format!("burst:inconclusive:{}", e.chars().take(40).collect::<String>())),
+		}
+	}
+}
